@@ -28,7 +28,8 @@ VARIABLES
   rd,        \* reader: [tx, snap, idx, inEv, left]
   cb,        \* callback totals [f, a]
   qtx,       \* queue transaction inside its commit: [kind, n]; mf / ma: state of a failed flush / ACK
-             \* attempt whose header may have reached the disk (C08 allows a reopen to show it)
+             \* attempt whose header may have reached the disk (C08 allows a reopen to show it);
+             \* pd: at the return of the producer's previous call every flushed event was ACKed
   cfg,       \* [ps, maxp]
   l, adev, devs, seen
 
@@ -67,14 +68,20 @@ Rd0 == [tx |-> FALSE, snap |-> 0, idx |-> 0, inEv |-> FALSE, left |-> 0]
 
 QOpen(e) ==
   /\ evs' = <<>> /\ ends' = <<>> /\ base' = 0 /\ cur' = 0 /\ flushedN' = 0 /\ ackedN' = 0
-  /\ rd' = Rd0 /\ cb' = [f |-> 0, a |-> 0] /\ qtx' = [kind |-> "", n |-> 0, mf |-> 0, ma |-> 0]
+  /\ rd' = Rd0 /\ cb' = [f |-> 0, a |-> 0] /\ qtx' = [kind |-> "", n |-> 0, mf |-> 0, ma |-> 0, pd |-> FALSE]
   /\ cfg' = [ps |-> e.ps, maxp |-> e.maxp]
 
 Keep(vs) == UNCHANGED vs
 
 WriteEv(e) ==
   /\ cur' = IF e.err = "" THEN cur + e.got ELSE cur
-  /\ UNCHANGED <<evs, ends, base, flushedN, ackedN, rd, cb, qtx, cfg>>
+  /\ qtx' = [qtx EXCEPT !.pd = (ackedN = flushedN)]
+  /\ UNCHANGED <<evs, ends, base, flushedN, ackedN, rd, cb, cfg>>
+
+\* return of Writer.Next / Writer.Flush
+ProducerEv(e) ==
+  /\ qtx' = [qtx EXCEPT !.pd = (ackedN = flushedN)]
+  /\ UNCHANGED <<evs, ends, base, cur, flushedN, ackedN, rd, cb, cfg>>
 
 \* the producer declares the current event complete (logged before Writer.Next is called:
 \* the flush that Next may trigger includes this event)
@@ -93,7 +100,7 @@ QTxBegin(e) ==
 QSwitched(e) ==
   /\ flushedN' = IF e.kind = "flush" THEN Len(evs) ELSE flushedN
   /\ ackedN' = IF e.kind = "ack" THEN ackedN + qtx.n ELSE ackedN
-  /\ qtx' = IF e.kind = "ack" THEN [kind |-> "", n |-> 0, mf |-> 0, ma |-> 0]
+  /\ qtx' = IF e.kind = "ack" THEN [qtx EXCEPT !.kind = "", !.n = 0, !.mf = 0, !.ma = 0]
             ELSE [qtx EXCEPT !.kind = "", !.mf = 0, !.ma = 0]
   /\ UNCHANGED <<evs, ends, base, cur, rd, cb, cfg>>
 
@@ -152,6 +159,20 @@ QClose(e) ==
 (***************************************************************************)
 PendingN == flushedN - ackedN
 
+\* C12: "after space is freed the buffered events are flushed by a later call".  A producer call
+\* may fail for lack of space only if there is something the consumer could still free or the
+\* buffered data is large compared with the file: if every flushed event had been ACKed already
+\* when the previous producer call returned (so during the whole failing call the queue held its
+\* constant number of pages only) and what is buffered needs at most a quarter of the file, the
+\* error is not explained by a full file.
+NeededPages ==
+  HdrAfter(EndOf(Len(evs)))[1] - (IF flushedN = 0 THEN 0 ELSE EndOf(flushedN)[1]) + 1 + (cur + HS) \div PS + 1
+ErrorWhenDrained(e) ==
+  F("C12", "ErrorWhenDrained",
+    ~(/\ e.err # "" /\ e.full /\ ~e.inj /\ cfg.maxp >= 32
+      /\ qtx.pd /\ ackedN = flushedN /\ qtx.kind = "" /\ qtx.mf = 0 /\ qtx.ma = 0
+      /\ NeededPages * 4 <= cfg.maxp))
+
 DrainOK(e, a, f) ==
   /\ a <= f /\ f <= Len(evs)
   /\ e.sizes = SubSeq(evs, a + 1, f)
@@ -162,11 +183,13 @@ ADev(e) ==
   CASE e.ev = "Write" ->
          F("C05", "WriteAccepted", e.err = "" => e.got = e.n)
          \cup F("C12", "WriteErrorOnlyWhenFull", e.err # "" => (e.full /\ e.got = 0))
+         \cup ErrorWhenDrained(e)
     [] e.ev = "NextCall" -> F("C05", "EventSize", e.size = cur)
-    [] e.ev = "Next" -> F("C12", "NextErrorOnlyWhenFull", e.err # "" => e.full)
+    [] e.ev = "Next" -> F("C12", "NextErrorOnlyWhenFull", e.err # "" => e.full) \cup ErrorWhenDrained(e)
     [] e.ev = "Flush" ->
          F("C06", "FlushMakesDurable", e.err = "" => flushedN = Len(evs))
          \cup F("C12", "FlushErrorOnlyWhenFull", e.err # "" => e.full)
+         \cup ErrorWhenDrained(e)
     [] e.ev = "QSwitched" ->
          F("C13", "SwitchKind", e.kind = qtx.kind /\ e.kind \in {"flush", "ack"})
          \cup F("C05", "AckWithinFlushed", e.kind = "ack" => ackedN + qtx.n <= flushedN)
@@ -225,13 +248,14 @@ Act(e) ==
     [] e.ev = "RNext" -> RNext(e)
     [] e.ev = "RRead" -> RRead(e)
     [] e.ev = "QClose" -> QClose(e)
-    [] e.ev \in {"Next", "Flush", "Available", "Counters", "QReopen", "CrashDrain", "CrashFailed",
+    [] e.ev \in {"Next", "Flush"} -> ProducerEv(e)
+    [] e.ev \in {"Available", "Counters", "QReopen", "CrashDrain", "CrashFailed",
                  "QOpenFailed", "IO", "Note"} -> NoChange
     [] OTHER -> FALSE
 
 TInit ==
   /\ evs = <<>> /\ ends = <<>> /\ base = 0 /\ cur = 0 /\ flushedN = 0 /\ ackedN = 0
-  /\ rd = Rd0 /\ cb = [f |-> 0, a |-> 0] /\ qtx = [kind |-> "", n |-> 0, mf |-> 0, ma |-> 0]
+  /\ rd = Rd0 /\ cb = [f |-> 0, a |-> 0] /\ qtx = [kind |-> "", n |-> 0, mf |-> 0, ma |-> 0, pd |-> FALSE]
   /\ cfg = [ps |-> 996, maxp |-> 0]
   /\ l = 1 /\ adev = {} /\ devs = {} /\ seen = {}
   /\ TLCSet(1, {})
